@@ -57,6 +57,25 @@ func (c *c07) setSchema(s PSchema) {
 	c.env, c.lastKey = env, string(k)
 }
 
+// idxOf: an index beyond 2^31-1 travels as its 8 big-endian bytes in B (N is then clamped to 2^31-1, which is as absent for the
+// specification as the real one)
+func idxOf(it PItem) int {
+	if it.K == "idx" && len(it.B) == 8 {
+		return int(fromBE8(it.B))
+	}
+	return it.N
+}
+
+// hugeIdx: absent indexes that are congruent to present ones modulo 2^61 / 2^62 (an offset computed as index * width wraps)
+func hugeIdx(r *rand.Rand, n int) PItem {
+	i := int64(0)
+	if n > 0 {
+		i = int64(r.Intn(n))
+	}
+	c := []int64{1 << 31, 1<<32 + i, 1<<60 + i, 1<<61 + i, 1<<62 + i, 1<<61 + 1<<62 + i, math.MaxInt64, math.MaxInt64/8 + 1, math.MaxInt64/4 + 1}
+	return PItem{K: "idx", N: math.MaxInt32, B: be8(c[r.Intn(len(c))])}
+}
+
 func toPPath(it PItem) pgen.Path {
 	switch it.K {
 	case "id":
@@ -64,7 +83,7 @@ func toPPath(it PItem) pgen.Path {
 	case "name":
 		return pgen.NewPathFieldName(string(it.B))
 	case "idx":
-		return pgen.NewPathIndex(it.N)
+		return pgen.NewPathIndex(idxOf(it))
 	case "str":
 		return pgen.NewPathStrKey(string(it.B))
 	case "int":
@@ -259,7 +278,7 @@ func (c *c07) chain(v pgen.Value, items []PItem) pgen.Value {
 		case "name":
 			v = v.FieldByName(string(it.B))
 		case "idx":
-			v = v.Index(it.N)
+			v = v.Index(idxOf(it))
 		case "str":
 			v = v.GetByStr(string(it.B))
 		case "int":
@@ -470,6 +489,9 @@ func pRandPath(r *rand.Rand, v PVal, md protoreflect.MessageDescriptor) []PItem 
 			case y < 2:
 				return items
 			case y < 4 || len(f.E) == 0:
+				if r.Intn(3) == 0 {
+					return append(items, hugeIdx(r, len(f.E)))
+				}
 				return append(items, PItem{K: "idx", N: len(f.E) + r.Intn(2), B: B{}})
 			case y < 5:
 				return append(items, PItem{K: "str", B: B("k")})
